@@ -120,6 +120,8 @@ def one_history(chk, sess, lines, tag, origin, expect=None):
     if any(x == "cycle" for x in out):
         chk.notes["empty_cycle_reports (known C07 finding disc-cycle-empty-list, reproduced by the model)"] = \
             chk.notes.get("empty_cycle_reports (known C07 finding disc-cycle-empty-list, reproduced by the model)", 0) + 1
+    if out != mo and search_schedules(chk, sess, lines, tag, origin):
+        return False
     if out != mo:
         chk.violation("impl-correspondence", "the small-step model Impl and the real engine disagree on the exact event interleaving, the iteration "
                       "boundaries, the recorded dependency order or the wait-for graph (the protocol oracle found nothing wrong on the implementation)",
@@ -131,6 +133,61 @@ def one_history(chk, sess, lines, tag, origin, expect=None):
     chk.notes["blocking_waits_compared"] = chk.notes.get("blocking_waits_compared", 0) + nwait
     chk.count((tag.rstrip("0123456789"), nexec, ncyc, nwait > 0) if nexec > 3 else None, n=max(1, nexec))
     return True
+
+
+def _summary(out):
+    """Per build: (result, executed keys, completed values) - what no schedule may change; None from the first build that reports a cycle on."""
+    res = []
+    for b in E.split_builds(out):
+        if b["hdr"] == "restart":
+            continue
+        if any(x.startswith("cycle") for x in b["other"]):
+            break
+        ex = sorted(int(l.split(" ")[1]) for l in b["events"] if l.startswith("create "))
+        vals = sorted((int(l.split(" ")[1]), l.split(" ")[2]) for l in b["events"] if l.startswith("complete "))
+        res.append(((b["result"] or "").split(" ")[1:2], ex, vals))
+    return res
+
+
+def search_schedules(chk, sess, lines, tag, origin):
+    """Model and engine disagree on this history: look for a concrete failing input by running the SAME history under other completion
+    schedules on the real engine: (a) the reasons oracle of C02 (shadow epochs) on each run, (b) results, executed rules and completed
+    values must not depend on the schedule (up to the first build that ends in a cycle report)."""
+    import re
+    variants = [None, "defer:1", "defer:2", "defer:7", "defer:31", "mixed:3", "mixed:11", "mixed:5", "defer:100", "mixed:77"]
+    base = None
+    for i, v in enumerate(variants):
+        L = []
+        for l in lines:
+            if l.startswith("build "):
+                l = re.sub(r" sched=\S+", "", l)
+                if v:
+                    l += " sched=" + v
+            L.append(l)
+        try:
+            rc, out, err, sp, tp = E.run_impl(sess.drv, L, os.path.join(TMP, chk.pid.lower(), tag + "-sched"))
+        except OSError:
+            continue
+        if rc != 0:
+            continue
+        bad = K.oracle_c02(L, K.parse_impl(out))
+        if bad:
+            chk.violation(bad[0][0], bad[0][1], dict(scenario=L, implementation=out, origin=origin + " (found by re-running a history on which the small-step model and the engine disagreed)"),
+                          found_input=True, broken="reasons oracle on the implementation")
+            return True
+        sm = _summary(out)
+        if base is None:
+            base = (L, sm, out)
+            continue
+        n = min(len(sm), len(base[1]))
+        if sm[:n] != base[1][:n]:
+            j = next(x for x in range(n) if sm[x] != base[1][x])
+            chk.violation("schedule-dependent-outcome", "the same history gives different results / executed rules / values under two completion schedules "
+                          "(build %d: %s vs %s)" % (j + 1, base[1][j], sm[j]),
+                          dict(scenario=L, other_scenario=base[0], implementation=out, other_implementation=base[2], origin=origin), found_input=True,
+                          broken="schedule independence on the implementation")
+            return True
+    return False
 
 
 CORPUS = [
